@@ -99,6 +99,15 @@ static void misc(Ctx& c) {
             for (auto& y : t) if (!(y.k == Val::R && float(y.r) == ex)) throw Violation("C19:forest-real:constant", "createConstant(" + tos(x) + ") evaluates to " + y.str() + " in " + fr.kindStr());
             c.count("forest_real_values");
         }
+        {
+            dd_edge z(FR); FR->createConstant(rangeval(0.0), z);
+            double uf[] = {1e-60, -1e-60, 1e-46, -1e-46, 4.9e-324, -0.0};
+            for (double x : uf) {
+                dd_edge e(FR); FR->createConstant(rangeval(x), e);
+                if (e != z) throw Violation("C19:forest-real:zero-not-unique", "MT real constant " + tos(x) + " (0 in single precision) is not the edge of the constant 0 in " + fr.kindStr());
+                c.count("forest_real_underflow_values");
+            }
+        }
         for (int bv = 0; bv < 2; bv++) {
             dd_edge e(FB); FB->createConstant(rangeval(bool(bv)), e);
             Table t = evalAll(w, e);
@@ -121,6 +130,18 @@ static void misc(Ctx& c) {
         if (relf) {
             FSpec ft = mkSpec(true, range_type::REAL, edge_labeling::EVTIMES, rule ? reduction_rule::QUASI_REDUCED : reduction_rule::FULLY_REDUCED);
             forest* FT = makeForest(w.dom, ft);
+            // zero is the unique transparent edge: doubles that underflow to 0 in single precision are the value 0
+            {
+                dd_edge z(FT); FT->createConstant(rangeval(0.0), z);
+                double uf[] = {1e-60, -1e-60, 1e-46, -1e-46, 4.9e-324, -0.0};
+                for (double x : uf) {
+                    dd_edge e(FT); FT->createConstant(rangeval(x), e);
+                    Table t = evalAll(w, e);
+                    for (auto& y : t) if (!(y.k == Val::R && y.r == 0)) throw Violation("C19:evtimes:underflow-constant", "EV* constant " + tos(x) + " (0 in single precision) evaluates to " + y.str());
+                    if (e != z) throw Violation("C19:evtimes:zero-not-unique", "EV* constant " + tos(x) + " (0 in single precision) is not the edge of the constant 0: a second representation of zero");
+                    c.count("evtimes_underflow_values");
+                }
+            }
             float tv[] = {0.0f, 1.0f, -1.0f, 0.5f, 3.25f, 1e-20f, 1e20f, -7.125f};
             for (float x : tv) {
                 dd_edge e(FT); FT->createConstant(rangeval(double(x)), e);
